@@ -584,9 +584,11 @@ func GenConvMix(rng *rand.Rand, n int, emit func(*Sx)) {
 			plain := segStream(rng, b.out[:b.tlsSplit], nil, rng.Intn(4), Raw{Kind: RawData})
 			plain = plain[:len(plain)-1]
 			inTLS := segStream(rng, b.out[b.tlsSplit:], nil, []int{0, 1, 3}[rng.Intn(3)], rawEOF)
+			b.cfg.Timeouts = nextTimeouts()
 			emit(RunConv(ConvCase{Cfg: b.cfg, Script: b.script, Phases: [][]Raw{plain, inTLS}}))
 			continue
 		}
+		b.cfg.Timeouts = nextTimeouts()
 		emit(RunConv(ConvCase{Cfg: b.cfg, Script: b.script, Phases: [][]Raw{b.segment()}}))
 	}
 }
